@@ -333,7 +333,7 @@ func (r *Runner) c06sweep(st *Step, after string) {
 	sort.Slice(all, func(i, j int) bool { return all[i].Addr < all[j].Addr })
 	for i := 1; i < len(all); i++ {
 		p, q := all[i-1], all[i]
-		if p.Addr+p.Size > q.Addr && !(p.NoCopy && q.NoCopy) {
+		if p.Addr+p.Size > q.Addr {
 			r.violation("C06", "C06/overlap", fmt.Sprintf("%s (%s, %d bytes at %#x) overlaps %s (%s, %d bytes at %#x)",
 				p.What, p.o.desc, p.Size, p.Addr, q.What, q.o.desc, q.Size, q.Addr), st)
 			break
